@@ -24,6 +24,10 @@ type session struct {
 	v   *vfs.FS
 	cl  drv.Client
 	bad bool // a malformed reply was seen: the case is discarded
+	// tolerateMalformed: a reply the strict decoder rejects yields a placeholder
+	// result (Status 0xFFFFFFFF) instead of abandoning the case. For checks whose
+	// oracle does not read the reply (backend recorder checks).
+	tolerateMalformed bool
 }
 
 func newSession(tb stat.TB, v *vfs.FS, opts absnfs.ExportOptions) *session {
@@ -40,8 +44,13 @@ func (s *session) close() { s.e.Close() }
 func guard(f func()) (abandoned bool) {
 	defer func() {
 		if r := recover(); r != nil {
-			if _, ok := r.(abandon); ok {
+			if a, ok := r.(abandon); ok {
 				abandoned = true
+				why := a.why
+				if len(why) > 60 {
+					why = why[:60]
+				}
+				stat.Label("abandoned: "+why, 1)
 				return
 			}
 			panic(r)
@@ -58,10 +67,18 @@ func (s *session) nfsAs(cl drv.Client, proc uint32, args []byte) *nfsx.Res {
 	res, err := s.e.NFS3(cl, proc, args)
 	if err != nil {
 		if drv.IsMalformed(err) {
+			if s.tolerateMalformed {
+				stat.Label("malformed_reply_tolerated", 1)
+				return &nfsx.Res{Proc: proc, Status: 0xFFFFFFFF}
+			}
 			stat.Discard(true)
 			panic(abandon{err.Error()})
 		}
 		var na *drv.ErrNotAccepted
+		if errors.As(err, &na) && s.tolerateMalformed {
+			stat.Label("rpc_not_accepted_tolerated", 1)
+			return &nfsx.Res{Proc: proc, Status: 0xFFFFFFFE}
+		}
 		if errors.As(err, &na) {
 			stat.Discard(false)
 			panic(abandon{err.Error()})
